@@ -1894,9 +1894,13 @@ func (s *BgpServer) handleFSMMessage(peer *peer, e *fsmMsg) {
 				// are not restarted. What the session that came and went in
 				// between announced is stale like the rest: it gets the same
 				// treatment (NO_LLGR routes dropped, the others marked).
+				// A family whose long-lived timer has already run out has
+				// no retention time left and no timer that would end it:
+				// its routes go with the ones of the families without LLGR.
 				llgr, no_llgr := peer.llgrFamilies()
-				s.dropAdjRIBIn(peer, no_llgr)
-				s.propagateUpdate(peer, peer.markLLGRStale(llgr))
+				running, over := peer.llgrTimerRunningFamilies(llgr)
+				s.dropAdjRIBIn(peer, append(no_llgr, over...))
+				s.propagateUpdate(peer, peer.markLLGRStale(running))
 			}
 		}
 
